@@ -17,7 +17,7 @@ INFO = dict(
               'action not cancelled before its rounded deadline ran exactly once at virtual time max(ceil_res(d_i), t_sched_i) '
               '(hence never before d_i and with no further scheduling activity); equal rounded deadlines run in scheduling '
               'order; an action cancelled strictly before that instant never runs; cancelling changes nothing else.',
-  bounds={'quick': 'k=3 actions, <=1 cancel, resolutions 0.01 / 0 / 1', 'thorough': 'k=4 actions with <=1 cancel (resolution 0.01); k=3 actions with <=2 cancels for resolutions 0.01 / 0 / 1'},
+  bounds={'quick': 'k=3 actions, <=1 cancel, resolutions 0.01 / 0 / 1; plus 40 pending actions of which 36 are cancelled in one burst at a symbolic instant (one live deadline symbolic)', 'thorough': 'k=4 actions with <=1 cancel (resolution 0.01); k=3 actions with <=2 cancels for resolutions 0.01 / 0 / 1'},
   outside=['more than k pending actions', 'IEEE-754 rounding of ceil(d/res)*res (time is over exact reals; the one-ulp-early effect is documented in DESIGN.md 7.3)',
            'starvation of the hub (A1)'],
   stubs=['virtual-time loop (3.1)', 'time source = loop clock', 'math.ceil/float/int on symbolic reals as module globals of scales.timer_queue (3.8)'],
